@@ -10,6 +10,7 @@ import (
 	"hash/fnv"
 	"os"
 	"regexp"
+	"runtime"
 	"sort"
 	"strings"
 	"sync"
@@ -117,6 +118,7 @@ type call struct {
 	connID int64
 	res    chan sqlResult
 	zkc    *memConn // for zk dial
+	stk uint64 // hash of the submitting goroutine's call stack: goroutine-stable tie-break
 	// filled by controller
 	key  string // stable identity incl. occurrence number
 	done bool
@@ -191,6 +193,13 @@ func (s *Sim) ping() {
 // submit parks the calling goroutine until the controller answers (or its ctx ends).
 func (s *Sim) submit(c *call) sqlResult {
 	c.res = make(chan sqlResult, 1)
+	var pcs [32]uintptr
+	n := runtime.Callers(2, pcs[:])
+	h := uint64(1469598103934665603)
+	for _, pc := range pcs[:n] {
+		h = (h ^ uint64(pc)) * 1099511628211
+	}
+	c.stk = h
 	s.pmu.Lock()
 	s.newCalls = append(s.newCalls, c)
 	s.pmu.Unlock()
@@ -274,13 +283,16 @@ func (s *Sim) assignKeys(cs []*call) {
 		if a.query != b.query {
 			return a.query < b.query
 		}
-		return fmt.Sprint(a.args) < fmt.Sprint(b.args)
+		if x, y := fmt.Sprint(a.args), fmt.Sprint(b.args); x != y {
+			return x < y
+		}
+		return a.stk < b.stk
 	})
 	for i, c := range cs {
 		base := c.src + "|" + c.dst + "|" + queryKind(c.query)
 		if i > 0 {
 			p := cs[i-1]
-			if p.src == c.src && p.dst == c.dst && p.query == c.query && fmt.Sprint(p.args) == fmt.Sprint(c.args) {
+			if p.src == c.src && p.dst == c.dst && p.query == c.query && fmt.Sprint(p.args) == fmt.Sprint(c.args) && p.stk == c.stk {
 				s.stats.Probes["identity_tie"]++
 			}
 		}
